@@ -43,6 +43,7 @@ class Agent:
         self.early_stop = False  # stop a GETBULK after an all-endOfMibView row
         self.writable = True
         self.length_form = 0
+        self.max_bulk_rows = 60
 
     # ------------------------------------------------------------------ MIB
     def _resort(self):
@@ -101,7 +102,8 @@ class Agent:
 
     def do_getbulk(self, vbs, non_rep, max_rep):
         n = max(min(non_rep, len(vbs)), 0)
-        m = max(max_rep, 0)
+        # an agent answers as many repetitions as fit its message size
+        m = min(max(max_rep, 0), self.max_bulk_rows)
         r = len(vbs) - n
         head = []
         for oid, _ in vbs[:n]:
